@@ -6,7 +6,7 @@
 (***************************************************************************)
 EXTENDS Session, Json, IOUtils, SequencesExt
 
-CONSTANTS Box        \* "quick" | "thorough" (glob: also "t1" "t2" "t3" = the thorough single-folder box by depth)
+CONSTANTS Box        \* sync / reader: "quick" | "thorough"; glob: "q1".."q3" (quick), "t1".."t5" (thorough), run in parallel JVMs
 
 -----------------------------------------------------------------------------
 \* 1. glob
@@ -53,11 +53,14 @@ SplitBox(Ls, U, opts) ==
         fa \in {P0, P1}, fn \in SUBSET UNi(U), o \in opts}
 MCGlobCases ==
     IF Part # "glob" THEN {} ELSE
-    CASE Box = "quick" -> SplitBox({1, 2, 3}, UQuick \cup {F(Stem, "nidq", "cbin")}, OptsQuick) \cup ForkBox({P0, P1, P6}, OptsQuick) \cup TwoStemBox(OptsQuick)
-      [] Box = "t1" -> SingleBox({1}, UFull, OptsThorough)
-      [] Box = "t2" -> SingleBox({2}, UFull, OptsThorough)
-      [] Box = "t3" -> SingleBox({3}, UFull, OptsThorough)
-      [] Box = "thorough" -> ForkBox({P0, P1, P2, P3, P4, P5, P6}, OptsQuick) \cup TwoStemBox(OptsThorough)
+    CASE Box = "q1" -> SplitBox({1, 2}, UQuick \cup {F(Stem, "nidq", "cbin")}, OptsQuick)
+      [] Box = "q2" -> SplitBox({3}, UQuick \cup {F(Stem, "nidq", "cbin")}, OptsQuick)
+      [] Box = "q3" -> ForkBox({P0, P1, P6}, OptsQuick) \cup TwoStemBox(OptsQuick)
+      [] Box = "t1" -> SplitBox({1}, UFull, OptsThorough)
+      [] Box = "t2" -> SplitBox({2}, UFull, OptsThorough)
+      [] Box = "t3" -> SplitBox({3}, UFull, OptsThorough)
+      [] Box = "t4" -> ForkBox({P0, P1, P2, P4, P6}, OptsQuick) \cup TwoStemBox(OptsThorough)
+      [] Box = "t5" -> SingleBox({3}, UQuick, OptsQuick)
       [] OTHER -> {}
 
 FName(f) == IF f = NoFile THEN "" ELSE f.stem \o "." \o f.stream \o "." \o f.e
@@ -70,8 +73,26 @@ GlobExpect(c) ==
      vfiles |-> IF \E x \in NidqDrivers(c.t, c.o) : NoFile \notin NidqChoices(c.t, c.o, x[1], x[2]) THEN "3B" ELSE "3A",
      probes |-> {<<l, ImplProbes(c.t)[l]>> : l \in DOMAIN ImplProbes(c.t)},
      version |-> ImplVersionFolder(c.t)]
+\* vacuity control: every branch of the two loops and every deviation class must occur in the union of the glob boxes of a tier:
+\* each run exports which of the facts it witnesses, the harness requires every fact to be witnessed by some run
+AllAp(c) == ApDrivers(c.t, c.o)
+VacGlob ==
+    [skip_missing |-> \E c \in MCGlobCases : \E x \in AllAp(c) : ApBranch(c.t, c.o, x[1], x[2]) = "skip_missing",
+     skip_noext |-> \E c \in MCGlobCases : \E x \in AllAp(c) : ApBranch(c.t, c.o, x[1], x[2]) = "skip_noext",
+     with_suffix |-> \E c \in MCGlobCases : \E x \in AllAp(c) : ApBranch(c.t, c.o, x[1], x[2]) = "with_suffix",
+     found |-> \E c \in MCGlobCases : \E x \in AllAp(c) : ApBranch(c.t, c.o, x[1], x[2]) = "found",
+     four_choices |-> \E c \in MCGlobCases : \E x \in AllAp(c) : Cardinality(ApEntries(c.t, c.o, x[1], x[2])) >= 4,
+     lf_none |-> \E c \in MCGlobCases : \E x \in AllAp(c) : \E e \in ApEntries(c.t, c.o, x[1], x[2]) : e.lf = NoFile,
+     label_empty |-> \E c \in MCGlobCases : \E x \in AllAp(c) : \E e \in ApEntries(c.t, c.o, x[1], x[2]) : e.label = "",
+     ghost |-> \E c \in MCGlobCases : \E x \in AllAp(c) : \E e \in ApEntries(c.t, c.o, x[1], x[2]) : ~Exists(c.t, e.fdir, e.file),
+     dev_recursive_nidq |-> \E c \in MCGlobCases : \E x \in NidqDrivers(c.t, c.o) : x[1] # 1 /\ ~c.o.recursive,
+     dev_nidq_none |-> \E c \in MCGlobCases : \E x \in NidqDrivers(c.t, c.o) : c.o.binex /\ NoFile \in NidqChoices(c.t, c.o, x[1], x[2]),
+     dev_probes_nidq |-> \E c \in MCGlobCases : c.o = MetaOpts /\ ~GProbesApP(c.t, ImplProbes(c.t)),
+     probe_twice |-> \E c \in MCGlobCases : c.o = MetaOpts /\ \E l \in DOMAIN ImplProbes(c.t) : ImplProbes(c.t)[l] >= 2,
+     version_3A |-> \E c \in MCGlobCases : ImplVersionFolder(c.t) = "3A",
+     version_3B |-> \E c \in MCGlobCases : ImplVersionFolder(c.t) = "3B"]
 ExportGlob == /\ TLCGet("distinct") >= 0
-              /\ JsonSerialize(IOEnv.OUT_FILE, SetToSeq({GlobExpect(c) : c \in MCGlobCases}))
+              /\ JsonSerialize(IOEnv.OUT_FILE, [cases |-> SetToSeq({GlobExpect(c) : c \in MCGlobCases}), vac |-> VacGlob])
 
 -----------------------------------------------------------------------------
 \* 2. sync map
@@ -88,7 +109,12 @@ Digs(sy) == {Absent} \cup {[present |-> TRUE, w |-> w] : w \in Wirings(PinsOf(sy
 Anas == IF Part # "sync" THEN {} ELSE {Absent} \cup {[present |-> TRUE, w |-> w] : w \in Wirings({"AI0", "AI2", "AI10", "AIN"}, Names, 2)}
 MCSyncCases == IF Part # "sync" THEN {} ELSE UNION {{[sys |-> sy, dig |-> d, ana |-> a] : d \in Digs(sy), a \in Anas} : sy \in {"3A", "3B", "XX", "none"}}
 SyncExpect(c) == LET r == ImplSyncMap(c) IN [c |-> c, exc |-> r.exc, map |-> {<<n, r.map[n]>> : n \in DOMAIN r.map}]
+VacSync == /\ {ImplSyncMap(c).exc : c \in MCSyncCases} = {"", "KeyError", "TypeError", "ValueError"}
+           /\ \E c \in MCSyncCases : c.sys = "3A" /\ ImplSyncMap(c).exc = "" /\ \E x \in Lines(c) : ImplSyncMap(c).map[x[1]] # x[2]   \* two pins, one name
+           /\ \E c \in MCSyncCases : c.sys = "3A" /\ ImplSyncMap(c).exc = "" /\ \E x \in Wired(c.dig.w) : DocLine("3A", x[1]) = None /\ x[2] \notin DOMAIN ImplSyncMap(c).map
+           /\ \E c \in MCSyncCases : ImplSyncMap(c).exc = "" /\ \E n \in DOMAIN ImplSyncMap(c).map : ImplSyncMap(c).map[n] >= 16
 ExportSync == /\ TLCGet("distinct") >= 0
+              /\ VacSync
               /\ JsonSerialize(IOEnv.OUT_FILE, [cases |-> SetToSeq({SyncExpect(c) : c \in MCSyncCases}),
                                                 pinout3A |-> {<<p, PinOut3A[p]>> : p \in DOMAIN PinOut3A},
                                                 pinout3B |-> {<<p, PinOut3B[p]>> : p \in DOMAIN PinOut3B},
@@ -103,7 +129,15 @@ MCReconCases ==
     \cup {[kind |-> kd, nsh |-> 1, k |-> k, pre |-> p, compress |-> z] : kd \in {"NP2.1", "3B2"}, k \in 0..2, p \in {"none", "match", "mismatch"}, z \in BOOLEAN}
 RECURSIVE ReconPath(_, _)
 ReconPath(c, st) == IF ReconFinal(st) THEN <<st>> ELSE <<st>> \o ReconPath(c, ReconStep(c, st))
+Fin(c) == ReconRun(c, ReconStart(c))
+VacRecon == /\ {<<Fin(c).status, Fin(c).exc>> : c \in MCReconCases} = {<<0, "">>, <<1, "">>, <<-1, "IndexError">>}
+            /\ {Fin(c).meta : c \in {x \in MCReconCases : Fin(x).status = 1}} = {"pre", "new"}
+            /\ \E c \in MCReconCases : Fin(c).status = 1 /\ c.pre = "mismatch" /\ Fin(c).meta = "new"
+            /\ \E c \in MCReconCases : Fin(c).status = 0 /\ c.kind = "NP2.4" /\ c.k > c.nsh
+            /\ \E c \in MCReconCases : Fin(c).status = 0 /\ c.kind = "NP2.4" /\ c.k < c.nsh
+            /\ \E c \in MCReconCases : Fin(c).status = 0 /\ c.kind # "NP2.4" /\ c.k = c.nsh
 ExportRecon == /\ TLCGet("distinct") >= 0
+               /\ VacRecon
                /\ JsonSerialize(IOEnv.OUT_FILE, SetToSeq({[c |-> c, path |-> ReconPath(c, ReconStart(c))] : c \in MCReconCases}))
 
 -----------------------------------------------------------------------------
@@ -114,6 +148,13 @@ SafeLen(st, seq, i) == IF i > Len(seq) THEN Len(seq)
 ReaderSeqs(k, o) == {SubSeq(q, 1, SafeLen(RdNew(k, o), q, 1)) : q \in [1..MaxLen -> Calls]}
 ReaderExpect(k, o, q) == [kind |-> k, open |-> o, seq |-> q, new |-> <<"ok", RdNew(k, o).h, IsOpenVal(RdNew(k, o))>>,
                           exp |-> RdRun(RdNew(k, o), q, 1)]
+AllObs == UNION {UNION {{<<k, r[1], r[2], r[3]>> : r \in {RdRun(RdNew(k, o), q, 1)[i] : i \in 1..Len(q)}} : q \in ReaderSeqs(k, o)} :
+                    <<k, o>> \in ReaderKinds \X BOOLEAN}
+VacReader == /\ \E x \in AllObs : DevStale(x[3], x[4])
+             /\ \E x \in AllObs : DevFlatUnset(x[1], x[3], x[4])
+             /\ {x[2] : x \in AllObs} = {"ok", "data", "IOError", "AttributeError", "True", "False"}
+             /\ \E k \in ReaderKinds : \E o \in BOOLEAN : \E q \in [1..MaxLen -> Calls] : SafeLen(RdNew(k, o), q, 1) < MaxLen   \* DANGER is reachable
 ExportReader == /\ TLCGet("distinct") >= 0
+                /\ VacReader
                 /\ JsonSerialize(IOEnv.OUT_FILE, SetToSeq(UNION {{ReaderExpect(k, o, q) : q \in ReaderSeqs(k, o)} : <<k, o>> \in ReaderKinds \X BOOLEAN}))
 =============================================================================
